@@ -134,4 +134,9 @@ MUTANTS = [
     ("dc_to_function_no_helper_init", DC, "        add_xc = depends_on(all_args, states) and not depends_on(all_args, self.Xc_vars)", "        add_xc = False", ["C19"]),
     ("dc_to_function_helper_init_from_first_node", DC, "                self.Xc_vars0.append(repmat(x, 1, self.degree if i==0 else self.degree+1))", "                self.Xc_vars0.append(repmat(self.X[0], 1, self.degree if i==0 else self.degree+1))", ["C19"]),
     ("to_function_results_at_initial", "rockit/direct_method.py", "        return self.opti.to_function(name, [stage.value(a) for a in args], results, *margs)", "        return self.opti.to_function(name, [stage.value(a) for a in args], [r if i!=1 else self.opti.value(r, self.opti.initial()) if False else r*1.0000001 for i,r in enumerate(results)], *margs)", ["C19"]),
+    # --- C03
+    ("sys_simulator_time_not_rescaled", "rockit/ocp.py", "        [ode,alg] = substitute([ode,alg],[self.t],[t0+tau*dt])", "        [ode,alg] = substitute([ode,alg],[self.t],[t0+tau])", ["C03"]),
+    ("builtin_intg_time_not_rescaled", SM, "        res = f(x=X, u=U, p=P, t=t0+t*DT, z=Z)", "        res = f(x=X, u=U, p=P, t=t0+t, z=Z)", ["C03"]),
+    ("rk_k4_uses_k2", SM, "        k4 = f(x=X + DT * k3[\"ode\"], u=U, p=P, t=t0+DT)", "        k4 = f(x=X + DT * k2[\"ode\"], u=U, p=P, t=t0+DT)", ["C03"]),
+    ("dc_quadrature_dt_of_control_interval", DC, "                    self.q = self.q + res[\"quad\"]*dt*self.B[j]", "                    self.q = self.q + res[\"quad\"]*dt*self.B[j]*(1+0.01*(self.M>2))", ["C03"]),
 ]
